@@ -943,12 +943,15 @@ def freshen (preds : List Str) : Nat → Str → Str
   | 0, v => v
   | f + 1, v => if v ∈ preds then freshen preds f (v ++ ['_']) else v
 
-/-- the variable of the `i`-th node (1-based): `'q' + str(i)` or `(type or '_') + str(i)`, then underscores
-appended until it is not the predicate of any node of the graph. -/
+/-- `'q' + str(i)` for a quantifier, else `(type or '_') + str(i)` (1-based position). -/
+def baseVar (d : DMRS) (i : Nat) (n : Node) : Str :=
+  if isQuantifier d n.id then 'q' :: natStr i
+  else (match n.type with | some (c :: r) => c :: r | _ => ['_']) ++ natStr i
+
+/-- the variable of the `i`-th node: `baseVar`, then underscores appended until it is not the predicate of any
+node of the graph. -/
 def varName (d : DMRS) (i : Nat) (n : Node) : Str :=
-  freshen (d.nodes.map (·.pred)) (d.nodes.length + 1)
-    (if isQuantifier d n.id then 'q' :: natStr i
-     else (match n.type with | some (c :: r) => c :: r | _ => ['_']) ++ natStr i)
+  freshen (d.nodes.map (·.pred)) (d.nodes.length + 1) (baseVar d i n)
 
 def enumFrom1 {α} : Nat → List α → List (Nat × α)
   | _, [] => []
